@@ -536,6 +536,13 @@ theorem gaussian_no_nan {F} [NumC F] (G : GaussLaws F) (classes members : Nat) (
   have hu := Cls.teamTag_unit G _ (Cls.gaussTaggers_unit G classes members d) x
   exact ⟨Cls.unit_not_nan G hu, G.base.sp_nn _ hu.1, hu.2⟩
 
+/-- the clamping of `fill_vector` under the same laws: whatever the program yields (nothing, ±1e308,
+    anything but NaN – a NaN is ignored by `distribution::add`), the value fed to the class
+    distribution lies in [−1e7, 1e7] -/
+theorem gauss_cut_bounded {F} [NumC F] (G : GaussLaws F) (o : Option F) (h : ¬ G.base.nan (Cls.valOr0 o)) :
+    le (neg (cut : F)) (Cls.cutVal o) = true ∧ le (Cls.cutVal o) (cut : F) = true :=
+  Cls.cutVal_bounded G o h
+
 /-- … instantiated with exact arithmetic (any `exp` with `0 ≤ exp x ≤ 1` for `x ≤ 0`): the
     end-to-end Gaussian fitness is ≤ 0 (this also shows that `GaussLaws` is satisfiable). -/
 theorem gaussian_evaluator_nonpos (ex : Rat → Rat) (dsc : Rat → Nat → Nat)
@@ -732,6 +739,42 @@ theorem generated_no_nan {F : Type} [FloatOps F] :
   rw [gen_errF]
   exact @no_nan_shipped F (numOfFloatOps F) L k step d
 
+/-! ## 13. an evaluator object evaluates the data it holds AT CALL TIME
+
+  `runHist call d ops` = a history on one evaluator object bound to one dataframe: the dataframe is
+  changed (rows appended / erased / reloaded, classes added) and `operator()` / `fast()` is called,
+  in any order.  `call` is the evaluator as a closure over its CONSTRUCTION PARAMETERS ONLY
+  (`soeCall k step`, `dynCall xslot members`, `gaussCall members`, `binCall members`). -/
+
+/-- EVERY call of EVERY history returns what the evaluator function gives on the data as they are
+    just before that call (rows, class table, counters – including the counter updates of earlier
+    calls): nothing seen at construction or at an earlier call is remembered. -/
+theorem history_current_data {D R : Type} (call : D → R × D) (d : D) (pre post : List (HistOp D)) :
+    (runHist call d (pre ++ HistOp.call :: post)).1[nCalls pre]? =
+      some (call (runHist call d pre).2).1 := by
+  rw [runHist_append]
+  simp only [runHist]
+  rw [List.getElem?_append_right (by rw [runHist_length]; exact Nat.le_refl _)]
+  simp [runHist_length]
+
+/-- … in particular what the dataframe held when the evaluator was constructed is irrelevant as
+    soon as it has been (re)loaded: two objects built on different data behave the same. -/
+theorem construction_data_irrelevant {D R : Type} (call : D → R × D) (atConstruction₁ atConstruction₂ now : D)
+    (ops : List (HistOp D)) :
+    runHist call atConstruction₁ (HistOp.mutate (fun _ => now) :: ops) =
+      runHist call atConstruction₂ (HistOp.mutate (fun _ => now) :: ops) := rfl
+
+/-- the Gaussian evaluator normalises with the number of classes of the class table AT CALL TIME:
+    a call on the frame `fr` is the documented score with `fr.classes − 1` (exact arithmetic) -/
+theorem gaussian_scale_is_current (ex : Rat → Rat) (dsc : Rat → Nat → Nat) (members : Nat)
+    (fr : ClsFrame Rat) :
+    letI := ratNumC ex dsc
+    (gaussCall members fr).1 =
+      [ ((Cls.tagAll (Cls.gaussTaggers fr.classes members fr.rows) fr.rows).map
+          (gaussTerm ((fr.classes - 1 : Nat) : Rat))).sum ] := by
+  letI := ratNumC ex dsc
+  exact gaussian_end_to_end_score ex dsc fr.classes members fr.rows
+
 /-! ## non-vacuity -/
 
 /-- the law structure is inhabited (exact arithmetic) -/
@@ -761,6 +804,9 @@ example : @testRun Nat Rat _ (ratNumC (fun _ => 1) (fun _ _ => 0)) (fun _ => 0) 
     [[0], [1], [0]] := by
   simp [testRun, testEval, bufferIndex]
   exact ⟨rfl, rfl, rfl⟩
+/-- a history: evaluate, append a row, evaluate again – the second call sees three rows -/
+example : (runHist (fun (d : List Nat) => (d.length, d)) [1, 2] [.call, .mutate (· ++ [7]), .call]).1 = [2, 3] := rfl
+
 /-- hypotheses of `legacy_unsigned_penalty_positive` / `penalty_component_no_nan`: a penalty of `3u` -/
 example : 0 < 3 ∧ 3 < 2 ^ 32 := by omega
 example : @penaltyComponent Rat (ratNumC (fun _ => 1) (fun _ _ => 0)) (Pen.nat 32 3) = -3 := rfl
